@@ -24,6 +24,19 @@ fn check_list(xs: &[f64], ys: &[f64], cx: &mut Cx) -> Verdict {
         Ok(p) => p,
         Err(p) => return Err(Fail::new(format!("linear() panicked on >= 2 finite knots: {p}"), detail(json!(p)))),
     };
+    // the same knots in a slice that sits at an address 8 (mod 16) (not a Vec's buffer): the result must not depend on it
+    if n <= 64 {
+        let placed = Placed::new(&knots);
+        match guard(|| linear(placed.slice())) {
+            Err(p) => return Err(Fail::new(format!("linear() panicked on a knot slice placed at an address 8 (mod 16): {p}"), detail(json!(p)))),
+            Ok(p2) => {
+                let same = p2.segments.len() == pw.segments.len() && p2.segments.iter().zip(&pw.segments).all(|(a, b)| a.end.to_bits() == b.end.to_bits() && all_bits_eq(&a.poly.0, &b.poly.0));
+                if !same {
+                    return Err(Fail::new("linear()'s result depends on where the knot slice sits in memory (address 8 mod 16 against a Vec's buffer)", detail(json!({"from_placed_slice_ends": fjs(&p2.segments.iter().map(|s| s.end).collect::<Vec<_>>())}))));
+                }
+            }
+        }
+    }
     // forced abscissae = running maximum
     let mut fx = vec![xs[0]];
     for i in 1..n {
